@@ -55,6 +55,7 @@ var transTargets = []transTarget{
 	{"chainimport", "", "targetHeightToImportSourceIndex", "targetHeightToImportSourceIndex"},
 	{"chainimport", "headersImport", "determineDivergenceSyncModes", "determineDivergenceSyncModes"},
 	{"chainimport", "headersImport", "determineProcessingRegions", "determineProcessingRegions"},
+	{"", "ChainService", "prepareCFiltersQuery", "prepareCFiltersQuery"},
 }
 
 // external packages whose struct types / constants the translator looks into
@@ -194,6 +195,8 @@ type tfunc struct {
 	nv      int
 	ntmp    int
 	nloop   int
+	nk      int
+	inLoop  int
 	oparams []*oparam
 	okey    map[string]*oparam
 	aux     []block
@@ -229,9 +232,13 @@ func (t *tfunc) bad(n ast.Node, format string, a ...any) {
 
 func (t *tfunc) info() *types.Info { return t.pi.info }
 
+// use records a free use of name at every open level (def being generated) in which it has not been
+// bound yet
 func (t *tfunc) use(name string) string {
-	for _, u := range t.used {
-		u[name] = true
+	for i, u := range t.used {
+		if !t.decl[i][name] {
+			u[name] = true
+		}
 	}
 	return name
 }
@@ -290,6 +297,12 @@ func structOK(n *types.Named) bool {
 		return false
 	}
 	p := n.Obj().Pkg().Path()
+	for _, tg := range transTargets {
+		// the receiver type of a translated method is a service object, not data: an atom
+		if tg.recv == n.Obj().Name() && (p == modPath+"/"+tg.rel || (tg.rel == "" && p == modPath)) {
+			return false
+		}
+	}
 	return p == modPath || strings.HasPrefix(p, modPath+"/") || transExtReal[p]
 }
 
@@ -557,7 +570,7 @@ func (t *tfunc) run(qual string) {
 	t.prepass()
 	t.used = []map[string]bool{{}}
 	t.decl = []map[string]bool{{}}
-	c := &ctx{ret: func(v string) block { return block{v} }}
+	c := &ctx{resT: t.retType, ret: func(v string) block { return block{v} }}
 	body := t.stmts(fd.Body.List, c, func() block {
 		if len(t.results) == 0 {
 			return block{"()"}
@@ -821,6 +834,10 @@ func (t *tfunc) prepass() {
 					items[path] = item{path, t.g.leanType(typeOf(t.pi, v)), false}
 					return false
 				}
+			}
+		case *ast.Ident:
+			if t.recvObj != nil && info.Uses[v] == t.recvObj {
+				items["(self)"] = item{"(self)", "GoInt.Atom", false} // the receiver handed on as a value
 			}
 		}
 		return true
